@@ -3,8 +3,8 @@ import Dnp3.Model.Database
 # Proofs about the outstation database model (C03 / C11 / C13 component level)
 
 Operations, invariants (`Ordered`, `TotalExact`, `WrittenExact`) and their preservation by every
-operation; the shape of D3 (`WrittenExact` breaks exactly when an overflow discards a `Written`
-record); `clearWritten`, `reset`, `select`, `writeEvents`, `kept`; static write resumption.
+operation (an overflow that discards a `Written` record takes it out of `written` too — the repair of
+D3); `clearWritten`, `reset`, `select`, `writeEvents`, `kept`; static write resumption.
 -/
 namespace Dnp3.DbProofs
 open Dnp3 Dnp3.DbM
@@ -199,6 +199,7 @@ theorem insert_cases (db : Db) (idx cls : Nat) (t : PtType) (m : Meas) (dv : Nat
       db.insert idx cls t m dv =
         ({ db with next := db.next + 1, events := rest ++ [mkRec db idx cls t m dv]
                    total := (((db.total.decTy t).decCls d.cls).incCls cls).incTy t
+                   written := if d.st = .written then (db.written.decTy t).decCls d.cls else db.written
                    overflown := true }, .overflow db.next d.id)) ∨
     (db.evMax ≠ 0 ∧ (db.total.ty t ≠ db.evMax ∨ removeFirstTy t db.events = none) ∧
       db.insert idx cls t m dv =
@@ -281,29 +282,83 @@ theorem tallyBy_append_unwritten (l : List EvRec) (r : EvRec) (hr : isWritten r 
     simp [tallyBy, hr]
   apply Counters.ext' <;> omega
 
-/-- `written` stays exact through an insert that does not discard a `Written` record -/
+/-- the `Written` tally without a `Written` record `d`: one less in its class and in its type -/
+theorem tallyBy_remove_written (pre post : List EvRec) (d : EvRec) (hd : isWritten d = true) :
+    (tallyBy isWritten (pre ++ post)).c1 = (tallyBy isWritten (pre ++ d :: post)).c1 - b2n (d.cls == 1) ∧
+    (tallyBy isWritten (pre ++ post)).c2 = (tallyBy isWritten (pre ++ d :: post)).c2 - b2n (d.cls == 2) ∧
+    (tallyBy isWritten (pre ++ post)).c3 = (tallyBy isWritten (pre ++ d :: post)).c3 - b2n (d.cls == 3) ∧
+    (tallyBy isWritten (pre ++ post)).bin = (tallyBy isWritten (pre ++ d :: post)).bin - b2n (d.ty == .binary) ∧
+    (tallyBy isWritten (pre ++ post)).an = (tallyBy isWritten (pre ++ d :: post)).an - b2n (d.ty == .analog) := by
+  have e3 := tallyBy_append_fields isWritten pre (d :: post)
+  have e4 := tallyBy_cons_fields isWritten d post
+  have e5 := tallyBy_append_fields isWritten pre post
+  simp only [hd, Bool.true_and] at e4
+  omega
+
+/-- `written` stays exact through every insert: a discarded `Written` record is taken out of
+    `written` (type and class), any other discard leaves it alone -/
 theorem insert_written (db : Db) (idx cls : Nat) (t : PtType) (m : Meas) (dv : Nat)
-    (h : WrittenExact db)
-    (hsafe : ∀ d rest, db.total.ty t = db.evMax → removeFirstTy t db.events = some (d, rest) → d.st ≠ .written) :
-    WrittenExact (db.insert idx cls t m dv).1 := by
+    (h : WrittenExact db) : WrittenExact (db.insert idx cls t m dv).1 := by
   have hmk : isWritten (mkRec db idx cls t m dv) = false := rfl
   rcases insert_cases db idx cls t m dv with ⟨_, he⟩ | ⟨_, d, rest, hfull, hrem, he⟩ | ⟨_, _, he⟩
   · rw [he]; exact h
   · rw [he]
     obtain ⟨hty, pre, post, hl, hr, _⟩ := removeFirstTy_spec t _ _ _ hrem
     subst hr
-    have hd : isWritten d = false := by
-      have := hsafe d _ hfull hrem
-      simp only [isWritten]; cases hst : d.st <;> simp_all
     unfold WrittenExact at h ⊢
     simp only
-    rw [tallyBy_append_unwritten _ _ hmk, ← tallyBy_remove_unwritten pre post d hd, ← hl]
-    exact h
+    rw [tallyBy_append_unwritten _ _ hmk]
+    by_cases hst : d.st = .written
+    · rw [if_pos hst]
+      have hd : isWritten d = true := by simp [isWritten, hst]
+      have e := tallyBy_remove_written pre post d hd
+      have f1 := decTy_fields db.written t
+      have f2 := decCls_fields (db.written.decTy t) d.cls
+      have hb : b2n (t == .binary) = b2n (d.ty == .binary) := by rw [hty]
+      have ha : b2n (t == .analog) = b2n (d.ty == .analog) := by rw [hty]
+      rw [hl] at h
+      apply Counters.ext' <;> simp only [h] at f1 f2 ⊢ <;> omega
+    · rw [if_neg hst]
+      have hd : isWritten d = false := by
+        simp only [isWritten]; cases hs' : d.st <;> simp_all
+      rw [← tallyBy_remove_unwritten pre post d hd, ← hl]
+      exact h
   · rw [he]
     unfold WrittenExact at h ⊢
     simp only
     rw [tallyBy_append_unwritten _ _ hmk]
     exact h
+
+/-- the decrements of `insert` never underflow (the Rust `Count::decrement` is a checked `-= 1`):
+    with exact counters, the record an overflow discards is counted in `total` — type and class — and,
+    when it is `Written`, in `written` as well -/
+theorem insert_decrements_no_underflow (db : Db) (t : PtType) (d : EvRec) (rest : List EvRec)
+    (h : CountersExact db) (hrem : removeFirstTy t db.events = some (d, rest)) :
+    1 ≤ db.total.ty t ∧ (d.cls = 1 ∨ d.cls = 2 ∨ d.cls = 3 → 1 ≤ (db.total.decTy t).cls d.cls) ∧
+    (d.st = .written →
+      1 ≤ db.written.ty t ∧ (d.cls = 1 ∨ d.cls = 2 ∨ d.cls = 3 → 1 ≤ (db.written.decTy t).cls d.cls)) := by
+  obtain ⟨hty, pre, post, hl, _, _⟩ := removeFirstTy_spec t _ _ _ hrem
+  obtain ⟨ht, hw⟩ := h
+  unfold TotalExact at ht
+  unfold WrittenExact at hw
+  rw [hl] at ht hw
+  have a3 := tallyBy_append_fields anyRec pre (d :: post)
+  have a4 := tallyBy_cons_fields anyRec d post
+  have w3 := tallyBy_append_fields isWritten pre (d :: post)
+  have w4 := tallyBy_cons_fields isWritten d post
+  have f1 := decTy_fields db.total t
+  have g1 := decTy_fields db.written t
+  simp only [anyRec, Bool.true_and] at a4
+  subst hty
+  refine ⟨?_, ?_, ?_⟩
+  · cases hd : d.ty <;> simp only [Counters.ty, ht, hd, beq_self_eq_true, b2n_true] at a3 a4 ⊢ <;> omega
+  · rintro (hc | hc | hc) <;> simp only [Counters.cls, hc, ht, beq_self_eq_true, b2n_true] at f1 a3 a4 ⊢ <;> omega
+  · intro hst
+    have hd : isWritten d = true := by simp [isWritten, hst]
+    simp only [hd, Bool.true_and] at w4
+    refine ⟨?_, ?_⟩
+    · cases hd' : d.ty <;> simp only [Counters.ty, hw, hd', beq_self_eq_true, b2n_true] at w3 w4 ⊢ <;> omega
+    · rintro (hc | hc | hc) <;> simp only [Counters.cls, hc, hw, beq_self_eq_true, b2n_true] at g1 w3 w4 ⊢ <;> omega
 
 theorem insert_ordered (db : Db) (idx cls : Nat) (t : PtType) (m : Meas) (dv : Nat)
     (h : Ordered db) : Ordered (db.insert idx cls t m dv).1 := by
@@ -422,36 +477,12 @@ theorem update_total (db : Db) (t : PtType) (idx : Nat) (v : Int) (f tm : Nat) (
   · exact he.total h
   · exact insert_total _ _ _ _ _ _ (he.total h)
 
-/-- D3 precondition: the record an overflow of type `t` would discard is not `Written` -/
-def OverflowSafe (db : Db) (t : PtType) : Prop :=
-  db.total.ty t = db.evMax →
-    match removeFirstTy t db.events with
-    | some (d, _) => d.st ≠ .written
-    | none => True
-
-theorem OverflowSafe.elim {db : Db} {t : PtType} (h : OverflowSafe db t) (d : EvRec) (rest : List EvRec)
-    (hfull : db.total.ty t = db.evMax) (hrem : removeFirstTy t db.events = some (d, rest)) :
-    d.st ≠ .written := by
-  have := h hfull
-  rw [hrem] at this
-  exact this
-
-instance (db : Db) (t : PtType) : Decidable (OverflowSafe db t) := by
-  unfold OverflowSafe
-  cases removeFirstTy t db.events with
-  | none => exact inferInstance
-  | some p => exact inferInstance
-
-theorem update_written (db : Db) (t : PtType) (idx : Nat) (v : Int) (f tm : Nat) (h : WrittenExact db)
-    (hs : OverflowSafe db t) : WrittenExact (db.update t idx v f tm).1 := by
+theorem update_written (db : Db) (t : PtType) (idx : Nat) (v : Int) (f tm : Nat) (h : WrittenExact db) :
+    WrittenExact (db.update t idx v f tm).1 := by
   obtain ⟨db0, he, h1 | h1 | ⟨cls, m, h1⟩⟩ := update_spec db t idx v f tm <;> rw [h1]
   · exact he.written h
   · exact he.written h
-  · apply insert_written _ _ _ _ _ _ (he.written h)
-    obtain ⟨e1, e2, _, _, e5, _⟩ := he
-    intro d rest hfull hrem
-    rw [e1] at hrem; rw [e2, e5] at hfull
-    exact hs.elim d rest hfull hrem
+  · exact insert_written _ _ _ _ _ _ (he.written h)
 
 /-! ## record-by-record relations between two event lists -/
 
@@ -981,17 +1012,10 @@ theorem total_step (db : Db) (op : DbOp) (h : TotalExact db) : TotalExact (step 
   | clear => exact clear_total db h
   | reset => exact reset_total db h
 
-/-- the D3 side condition of one operation: an update of type `t` must not overflow a `Written`
-    record out of the buffer -/
-def StepSafe (db : Db) : DbOp → Prop
-  | .update t _ _ _ _ => OverflowSafe db t
-  | _ => True
-
-theorem written_step (db : Db) (op : DbOp) (h : WrittenExact db) (hs : StepSafe db op) :
-    WrittenExact (step db op) := by
+theorem written_step (db : Db) (op : DbOp) (h : WrittenExact db) : WrittenExact (step db op) := by
   cases op with
   | add t idx cls => exact (add_eb db t idx cls).written h
-  | update t idx v f tm => exact update_written db t idx v f tm h hs
+  | update t idx v f tm => exact update_written db t idx v f tm h
   | select hd => exact (select_sel db hd).written h
   | write cap => exact (writeResponse_eb db cap).written (writeEvents_written db cap h)
   | unsol c1 c2 c3 cap =>
@@ -1002,20 +1026,6 @@ theorem written_step (db : Db) (op : DbOp) (h : WrittenExact db) (hs : StepSafe 
       rw [he]; exact writeEvents_written _ _ (hsel.written (reset_written db))
   | clear => exact clear_written db
   | reset => exact reset_written db
-
-instance (db : Db) (op : DbOp) : Decidable (StepSafe db op) := by
-  cases op <;> unfold StepSafe <;> exact inferInstance
-
-/-- a history in which no overflow discards a `Written` record -/
-def SafeRun : Db → List DbOp → Prop
-  | _, [] => True
-  | db, op :: ops => StepSafe db op ∧ SafeRun (step db op) ops
-
-instance decSafeRun : ∀ (ops : List DbOp) (db : Db), Decidable (SafeRun db ops)
-  | [], _ => isTrue trivial
-  | op :: ops, db =>
-    have := decSafeRun ops (step db op)
-    by unfold SafeRun; exact inferInstance
 
 instance (db : Db) : Decidable (TotalExact db) := by unfold TotalExact; exact inferInstance
 instance (db : Db) : Decidable (WrittenExact db) := by unfold WrittenExact; exact inferInstance
@@ -1050,11 +1060,19 @@ theorem total_run (db : Db) (ops : List DbOp) (h : TotalExact db) : TotalExact (
   | nil => exact h
   | cons op ops ih => exact ih _ (total_step db op h)
 
-theorem written_run (db : Db) (ops : List DbOp) (h : WrittenExact db) (hs : SafeRun db ops) :
-    WrittenExact (run db ops) := by
+theorem written_run (db : Db) (ops : List DbOp) (h : WrittenExact db) : WrittenExact (run db ops) := by
   induction ops generalizing db with
   | nil => exact h
-  | cons op ops ih => exact ih _ (written_step db op h hs.1) hs.2
+  | cons op ops ih => exact ih _ (written_step db op h)
+
+theorem counters_step (db : Db) (op : DbOp) (h : CountersExact db) : CountersExact (step db op) :=
+  ⟨total_step db op h.1, written_step db op h.2⟩
+
+theorem counters_run (db : Db) (ops : List DbOp) (h : CountersExact db) : CountersExact (run db ops) :=
+  ⟨total_run db ops h.1, written_run db ops h.2⟩
+
+theorem new_counters (evMax : Nat) (sel : Option Nat) : CountersExact (Db.new evMax sel) :=
+  ⟨new_total evMax sel, new_written evMax sel⟩
 
 /-! ## `kept`: nothing but a reported overflow discard and `clearWritten` removes a record -/
 
